@@ -22,12 +22,12 @@ func (noClose) Close() error { return nil }
 
 // node = a real ledger brought to a chain-state kind.
 type node struct {
-	w     *world
-	st    storage.Store
-	bc    *core.Blockchain
-	h     int // block height when prepared
-	hdrH  int
-	state string
+	w      *world
+	st     storage.Store
+	bc     *core.Blockchain
+	h      int // block height when prepared
+	hdrH   int
+	state  string
 	pooled int
 }
 
@@ -119,12 +119,12 @@ func (n *node) close() { n.bc.Close() }
 // ---- observation ------------------------------------------------------------------------------------------------------
 
 type snap struct {
-	blkH, hdrH   uint32
-	tip, hdrTip  util.Uint256
-	hdrs         []util.Uint256 // header hashes above the top block
-	led          map[string]string
-	pool         string
-	db           map[string]string
+	blkH, hdrH  uint32
+	tip, hdrTip util.Uint256
+	hdrs        []util.Uint256 // header hashes above the top block
+	led         map[string]string
+	pool        string
+	db          map[string]string
 }
 
 func rawDump(st storage.Store) map[string]string {
@@ -174,7 +174,7 @@ var prefixNames = map[byte]string{
 }
 
 // dbDiff names the kinds of keys whose presence or value differs; the executable record of `offered` is named apart.
-func dbDiff(a, b map[string]string, offered util.Uint256) []string {
+func dbDiff(a, b map[string]string, offered util.Uint256, follower ...util.Uint256) []string {
 	set := map[string]bool{}
 	name := func(k string) string {
 		if len(k) == 0 {
@@ -182,6 +182,9 @@ func dbDiff(a, b map[string]string, offered util.Uint256) []string {
 		}
 		if k[0] == byte(storage.DataExecutable) && len(k) == 33 && k[1:] == string(offered.BytesBE()) {
 			return "hdr_record"
+		}
+		if len(follower) > 0 && k[0] == byte(storage.DataExecutable) && len(k) == 33 && k[1:] == string(follower[0].BytesBE()) {
+			return "hdr_record" // the follower of a batch offer
 		}
 		if nm, ok := prefixNames[k[0]]; ok {
 			return nm
